@@ -231,9 +231,72 @@ def _check_codes(tname, fg, items, col):
     return False, "unknown type"
 
 
+def _argmin_loop_normal_form(f):
+    """`D = []; for i in range(len(self._colors)): BODY; D.append(E)` followed by `return D.index(min(D))` is the closure form
+    `def _distance(i): BODY; return E` with `return min(range(len(self._colors)), key=_distance)` - list.index(min(..)) and min(range,
+    key=..) both pick the FIRST minimal element.  Returns a FuncInfo whose node is that closure form (a rewritten copy; line numbers
+    kept), or f itself when the loop form is not there."""
+    import copy as _copy
+    from ..astutil import alias_map as _am, expand_alias as _ea
+    node = f.node
+    al = _am(node)
+    rets = [r for r in walk_local(node) if isinstance(r, ast.Return) and r.value is not None]
+    if len(rets) != 1:
+        return f
+    v = rets[0].value
+    if not (isinstance(v, ast.Call) and isinstance(v.func, ast.Attribute) and v.func.attr == "index" and isinstance(v.func.value, ast.Name) and len(v.args) == 1
+            and isinstance(v.args[0], ast.Call) and call_name(v.args[0]) == "min" and len(v.args[0].args) == 1 and not v.args[0].keywords and norm(v.args[0].args[0]) == v.func.value.id):
+        return f
+    dname = v.func.value.id
+    inits = [x for x in node.body if isinstance(x, (ast.Assign, ast.AnnAssign)) and x.value is not None and isinstance(x.value, ast.List) and not x.value.elts
+             and norm(x.targets[0] if isinstance(x, ast.Assign) else x.target) == dname]
+    loops = [x for x in node.body if isinstance(x, ast.For) and not x.orelse and isinstance(x.target, ast.Name) and norm(x.iter) == "range(len(self._colors))"]
+    if len(inits) != 1 or len(loops) != 1:
+        return f
+    lp = loops[0]
+    last = lp.body[-1] if lp.body else None
+    if not (isinstance(last, ast.Expr) and isinstance(last.value, ast.Call) and len(last.value.args) == 1 and not last.value.keywords):
+        return f
+    fn_ = _ea(last.value.func, al) if isinstance(last.value.func, ast.Name) else last.value.func
+    if norm(fn_) != f"{dname}.append":
+        return f
+    # nothing else touches the list, nothing leaves the loop early
+    others = [x for x in ast.walk(node) if isinstance(x, ast.Name) and x.id == dname]
+    if any(isinstance(x, (ast.Break, ast.Continue, ast.Return)) for b in lp.body for x in ast.walk(b)):
+        return f
+    uses = sum(1 for x in others)
+    alias_uses = sum(1 for k_, v_ in al.items() if norm(v_) == f"{dname}.append")
+    if uses != 1 + alias_uses + (0 if alias_uses else 1) + 2:
+        return f
+    new = _copy.deepcopy(node)
+    nlp = [x for x in new.body if isinstance(x, ast.For)][0]
+    body = nlp.body[:-1] + [ast.copy_location(ast.Return(value=nlp.body[-1].value.args[0]), nlp.body[-1])]
+    closure = ast.FunctionDef(name="_loop_distance", args=ast.arguments(posonlyargs=[], args=[ast.arg(arg=nlp.target.id)], kwonlyargs=[], kw_defaults=[], defaults=[]), body=body, decorator_list=[], returns=None, type_comment=None, type_params=[])
+    ast.copy_location(closure, nlp)
+    nret = [r for r in new.body if isinstance(r, ast.Return)][0] if any(isinstance(r, ast.Return) for r in new.body) else None
+    if nret is None:
+        return f
+    nret.value = ast.copy_location(ast.parse("min(range(len(self._colors)), key=_loop_distance)", mode="eval").body, nret.value)
+    keep = []
+    for x in new.body:
+        if x is nlp:
+            keep.append(closure)
+        elif isinstance(x, (ast.Assign, ast.AnnAssign)) and norm(x.targets[0] if isinstance(x, ast.Assign) else x.target) == dname:
+            continue
+        elif isinstance(x, ast.Assign) and norm(x.value) == f"{dname}.append":
+            continue
+        else:
+            keep.append(x)
+    new.body = keep
+    ast.fix_missing_locations(new)
+    g = _copy.copy(f)
+    g.node = new
+    return g
+
+
 def r18_5(ctx):
     ctx.rule("R18.5", "Palette.match returns builtin min over range(len(self._colors)) keyed by a distance closure that pairs component i of the query with component i of the entry; its result is an index in [0, len-1]")
-    f = ctx.repo.fn("palette:Palette.match")
+    f = _argmin_loop_normal_form(ctx.repo.fn("palette:Palette.match"))
     color_p = f.params[1]
     rets = [r for r in walk_local(f.node) if isinstance(r, ast.Return)]
     # resolve returned name to its definition
@@ -562,7 +625,7 @@ def r18_8(ctx):
     ctx.rule("R18.8", "the distance minimised by Palette.match IS Rich's weighted-RGB metric: after inlining its temporaries and stripping the monotone sqrt, the distance closure's result has the same integer-polynomial normal form as ((512+rm)*dr^2 >> 8) + 4*dg^2 + ((767-rm)*db^2 >> 8) with rm = (r1+r2)//2 (x>>8 and x//256 identified, products expanded); leaving integer arithmetic (true division, float weights) or other weights changes which of two near-equidistant entries wins")
     from .. import poly
     from ..astutil import inline as _inl, single_defs as _sdf
-    f = ctx.repo.fn("palette:Palette.match")
+    f = _argmin_loop_normal_form(ctx.repo.fn("palette:Palette.match"))
     m = f.module
     color_p = f.params[1]
     q_names = None
